@@ -65,6 +65,13 @@ pub fn plan_operation(
         include_styles.to_vec(),
         only_styles.to_vec(),
     );
+    // `None` means that the exclusions left no style at all; downstream `None` would mean
+    // "the default styles", i.e. exactly the styles the user excluded
+    if styles.is_none() {
+        return Err(anyhow::anyhow!(
+            "invalid style selection: every naming style is excluded, nothing to search for"
+        ));
+    }
 
     let plan_out_path = plan_out.unwrap_or_else(|| PathBuf::from(".renamify/plan.json"));
 
